@@ -447,7 +447,11 @@ func (server *SugarDB) getState() map[int]map[string]interface{} {
 	// looked at: a write command waits for the copy flag while it holds this lock.)
 	server.commandLock.Lock()
 	defer server.commandLock.Unlock()
+	return server.copyState()
+}
 
+// copyState copies the store. The caller holds the command lock.
+func (server *SugarDB) copyState() map[int]map[string]interface{} {
 	// Wait unit there's no state mutation or copy in progress before starting a new copy process.
 	for {
 		if !server.stateCopyInProgress.Load() && !server.stateMutationInProgress.Load() {
